@@ -40,6 +40,7 @@ def run(chk: Check, proj: Project) -> None:
     s10_scan_input(chk, proj, m)
     s12_gives_up_only_without_both(chk, proj, m)
     s17_tag_name_of_every_match(chk, proj, m)
+    s18_marker_removal_exact(chk, proj, m)
     from . import C04
     from .common import world
 
@@ -748,6 +749,34 @@ def s17_tag_name_of_every_match(chk: Check, proj: Project, m) -> None:
     chk.ob("S17", "dependencies:_insert_js_css_to_default_locations:tag-name-total", m.loc(ext), not bad,
            f"`{short(ext)}` yields one of {sorted(names)} for all {len(members)} sampled members of {rx}'s language" if not bad else
            f"`{short(ext)}` yields {bad[0][1]!r} for the match {bad[0][0]!r}, which {rx} accepts, and no branch knows that name: a document whose end tag is written with whitespace before `>` makes render_dependencies raise (or skip the insertion) instead of inserting the dependencies there")
+
+
+def s18_marker_removal_exact(chk: Check, proj: Project, m) -> None:
+    chk.rule("S18", "what the marker harvest deletes is the marker and nothing else: the removal pattern begins with the literal `<` of `<!--` and ends with the literal `>` of `-->` (no quantified class before or after - whitespace next to a marker is the author's, e.g. inside <pre>), and a deleted comment whose payload is not a component record ends the call with an error (the comment is already gone, so carrying on silently would drop an author's `<!-- _RENDERED ... -->` look-alike)")
+    import re._parser as _sp
+
+    from .markers import compiled_regex
+
+    pat, flags, node = compiled_regex(proj, "dependencies", "COMPONENT_COMMENT_REGEX")
+    tree = _sp.parse(pat, flags)
+    items = list(tree)
+    first, last = items[0], items[-1]
+    ok = str(first[0]) == "LITERAL" and first[1] == ord("<") and str(last[0]) == "LITERAL" and last[1] == ord(">")
+    chk.ob("S18", "dependencies:COMPONENT_COMMENT_REGEX:matches-the-marker-only", m.loc(node), ok,
+           "the pattern starts at `<` and ends at `>`" if ok else
+           f"the pattern's {'first' if not (str(first[0]) == 'LITERAL' and first[1] == ord('<')) else 'last'} element is `{str((first if not (str(first[0]) == 'LITERAL' and first[1] == ord('<')) else last)[0])}`, not the marker's own delimiter: stripping a marker also removes the text next to it (the newline and indent that follow a component rendered inside <pre>) - other bytes of the document change")
+    f = m.func("_process_dep_declarations")
+    mv = local_from(f, lambda v: isinstance(v, ast.Call) and isinstance(v.func, ast.Attribute) and v.func.attr in ("match", "fullmatch") and "SCRIPT_NAME_REGEX" in norm(v.func.value))
+    if mv is None:
+        chk.undecided("S18", "dependencies:_process_dep_declarations:malformed-record-raises", m.loc(f), "SCRIPT_NAME_REGEX.match(...) result not found")
+        return
+    from ..cfg import always_exits
+
+    guards = [x for x in ast.walk(f) if isinstance(x, ast.If) and norm(x.test) in (f"not {mv}", f"{mv} is None")]
+    okg = bool(guards) and all(always_exits(g.body) and any(isinstance(y, ast.Raise) for y in ast.walk(g)) and not any(isinstance(y, (ast.Continue, ast.Break, ast.Return)) for st_ in g.body for y in ast.walk(st_)) for g in guards)
+    chk.ob("S18", "dependencies:_process_dep_declarations:malformed-record-raises", m.loc(guards[0]) if guards else m.loc(f), okg,
+           "a harvested comment that is not a component record raises" if okg else
+           "a harvested comment whose payload does not parse as a component record is skipped silently - but the harvest has already deleted it from the document: an author's or a third party's `<!-- _RENDERED 2024/06/01 -->` disappears from the output without an error")
 
 
 MANIFEST = {
